@@ -315,8 +315,8 @@ class HandleRegistry:
         oinit, odel = F.__init__, F.__del__
         self._orig = (oinit, odel)
 
-        def __init__(self, node, bdd):
-            oinit(self, node, bdd)
+        def __init__(self, node, bdd, *args, **kw):
+            oinit(self, node, bdd, *args, **kw)
             reg.live[(id(self.manager), abs(node))] += 1
             reg.created += 1
 
